@@ -13,6 +13,30 @@ CHECKS = {
     design_ref="DESIGN.md section 6 C07",
     note="Trusts: TLC; the glue that spells a suffix with the spec's Alphabet and reads next_ids.json; dates 2000-2099. The replay observes ZIDManager.get_next and the file, not callers.",
     technique="TLA+ spec (Zid.tla) + TLC exhaustive chain/interleavings + S->I replay of TLC graph + I->S trace validation"),
+ "C01": dict(
+    category="model_checking",
+    text="PageSem.tla states what a page means (Notes(page)); PageWalk.tla is the listener state machine and TLC checks that it refines PageSem on every single-item shape (MC_PageItem: ~100k states: kind x priority x id-prefix x 26 word forms at body positions 1-2 x continuation; invariants RefinesSem, PrefixLookalikesInert, NonItemsNeverNotes). Every page TLC reached (stratified sample in quick, all in thorough) plus random 10-50 line pages over the full vocabulary is rendered, compiled by the real compiler, and TLC (Trace_Page) compares count, order, line, kind, priority, ZID, dates and body of each note with PageSem.",
+    design_ref="DESIGN.md section 6 C01",
+    note="Trusts: TLC; the vocabulary (spelling of word classes, checked by PageSem!WordOK on every record); scope PageWalk!ItemInScope (no identifier-free word before a date/ZID look-alike); ASCII text.",
+    technique="TLA+ spec (PageSem/PageWalk) + TLC refinement check + S->I replay of every TLC state + I->S batch validation of recorded compilations"),
+ "C02": dict(
+    category="model_checking",
+    text="TLC checks that the listener model with per-scope stores and explicit resets (PageWalk) equals the tree-based denotation (PageSem) on every legal header skeleton up to 6 body lines / 5 headers with every own-decoration and date choice (2.2M states thorough, 198k quick; invariants RefinesSem, NoLeak, LegalAgrees). The pages of the deterministic-decoration configuration (every scope carries unique tags, link, property, shared key, optional date) and random metadata-dense pages are compiled by the real compiler and TLC compares tags, links, properties and create date of every note with PageSem.",
+    design_ref="DESIGN.md section 6 C02",
+    note="Trusts: TLC; vocabulary; one bullet level per note for property bullets; no date-valued property in a header (DESIGN don't-care).",
+    technique="TLA+ spec (PageSem/PageWalk) + TLC exhaustive skeleton enumeration + S->I replay + I->S batch validation"),
+ "C08": dict(
+    category="exploration",
+    text="Compile part: random valid pages, each damaged by 1-3 character/token/line edits, random strings and bytes are compiled by the real compiler; an independent ANTLR listener of the harness counts syntax errors and items; TLC evaluates Trace_Compile!CompileOK (no exception; flagged iff syntax errors; broken => no notes; valid => all items) on every record. Protocol part (refusal / whitelist) is model-checked and replayed with the index model. Totality over all texts cannot be enumerated, hence exploration.",
+    design_ref="DESIGN.md section 6 C08 and section 7",
+    note="Random sampling of texts; the oracle is a TLA+ predicate evaluated by TLC; one recorded known finding (unflagged broken page without items).",
+    technique="random/damaged-text exploration with a TLA+ oracle evaluated by TLC (Trace_Compile); protocol part via Index.tla"),
+ "C12": dict(
+    category="model_checking",
+    text="Design-level theorem RoundTrip is TLC-checked on every single-item shape (MC_PageItem). Binding: for every TLC-reached item page and random pages, each real Note.to_string() must equal PageSem!RenderNote of the expected note, and the page made of a title line plus the emitted texts is compiled by the real compiler and compared by TLC with Notes(Page2(page)) on exactly the fields the property names.",
+    design_ref="DESIGN.md section 6 C12",
+    note="Trusts: TLC, vocabulary. One recorded known finding (done/cancelled todo whose body starts with a priority-shaped word).",
+    technique="TLA+ spec (PageSem RenderNote/RoundTrip) + TLC + S->I replay through the real to_string and compiler + batch validation by TLC"),
 }
 NOT_YET = "check not built yet in this round (planned in DESIGN.md section 6); not claimed until its evidence exists"
 
